@@ -168,10 +168,15 @@ struct Outcome {
 }
 
 fn run_cli(cfg: &Cfg, args: &[String], dir: &Path, timeout_s: u64) -> (Option<i32>, Vec<u8>, String, bool) {
-    run_cli_env(cfg, args, dir, timeout_s, &[])
+    run_cli_env(cfg, args, dir, timeout_s, &[], false)
 }
 
-fn run_cli_env(cfg: &Cfg, args: &[String], dir: &Path, timeout_s: u64, env: &[(&str, &str)]) -> (Option<i32>, Vec<u8>, String, bool) {
+fn run_cli_env(cfg: &Cfg, args: &[String], dir: &Path, timeout_s: u64, env: &[(&str, &str)], stdout_full: bool) -> (Option<i32>, Vec<u8>, String, bool) {
+    let stdout_cfg = if stdout_full {
+        std::fs::OpenOptions::new().write(true).open("/dev/full").map(Stdio::from).unwrap_or_else(|_| Stdio::piped())
+    } else {
+        Stdio::piped()
+    };
     let mut child = Command::new(&cfg.cli)
         .args(args)
         .current_dir(dir)
@@ -181,18 +186,20 @@ fn run_cli_env(cfg: &Cfg, args: &[String], dir: &Path, timeout_s: u64, env: &[(&
         .env("NO_PROXY", "*")
         .envs(env.iter().cloned())
         .stdin(Stdio::null())
-        .stdout(Stdio::piped())
+        .stdout(stdout_cfg)
         .stderr(Stdio::piped())
         .spawn()
         .unwrap_or_else(|e| {
             eprintln!("harness error: cannot start {}: {}", cfg.cli.display(), e);
             std::process::exit(2)
         });
-    let mut so = child.stdout.take().unwrap();
+    let so = child.stdout.take();
     let mut se = child.stderr.take().unwrap();
     let t1 = std::thread::spawn(move || {
         let mut v = vec![];
-        let _ = so.read_to_end(&mut v);
+        if let Some(mut so) = so {
+            let _ = so.read_to_end(&mut v);
+        }
         v
     });
     let t2 = std::thread::spawn(move || {
@@ -239,7 +246,9 @@ fn execute(plan: &Value, w: &World, cfg: &Cfg, slot: usize) -> Outcome {
     let refused = headers.iter().any(|h| plan::header_refused(h));
     // pre-existing output
     std::fs::create_dir_all(dir.join("sub")).unwrap();
+    let sink_full = plan["sink"] == "dev-full";
     let (out_path, out_arg) = match plan["output_form"].as_str() {
+        _ if sink_full => (PathBuf::from("/dev/full"), "/dev/full".to_string()),
         Some("rel") => (dir.join("out.json"), "out.json".to_string()),
         Some("rel-sub") => (dir.join("sub").join("out.json"), "sub/../sub/out.json".to_string()),
         _ => (dir.join("out.json"), dir.join("out.json").display().to_string()),
@@ -251,6 +260,7 @@ fn execute(plan: &Value, w: &World, cfg: &Cfg, slot: usize) -> Outcome {
         Some("old-schema") => Some(b"{\n  \"data\": {\n    \"__schema\": {\n      \"queryType\": { \"name\": \"OldQuery\" },\n      \"types\": []\n    }\n  }\n}\n".to_vec()),
         _ => None,
     };
+    let pre = if sink_full { None } else { pre };
     if let Some(p) = &pre {
         std::fs::write(&out_path, p).unwrap();
     }
@@ -294,9 +304,10 @@ fn execute(plan: &Value, w: &World, cfg: &Cfg, slot: usize) -> Outcome {
         Some("locale-tz") => vec![("LANG", "tr_TR.UTF-8"), ("LC_ALL", "tr_TR.UTF-8"), ("TZ", "Pacific/Kiritimati"), ("TERM", "xterm-256color"), ("COLUMNS", "20")],
         _ => vec![],
     };
-    let (code, stdout, stderr, timed_out) = run_cli_env(cfg, &args, &dir, 90, &env);
+    let (code, stdout, stderr, timed_out) = run_cli_env(cfg, &args, &dir, 90, &env, sink_full && plan["output"].is_null());
     let seen = endpoint.finish();
-    let after: Option<Vec<u8>> = std::fs::read(&out_path).ok();
+    // (/dev/full reads as an endless stream of zeros: never read it back)
+    let after: Option<Vec<u8>> = if sink_full { None } else { std::fs::read(&out_path).ok() };
 
     let mut v: Vec<Violation> = vec![];
     let mut push = |class: &str, detail: String| v.push(Violation { class: class.to_string(), detail });
@@ -348,6 +359,16 @@ fn execute(plan: &Value, w: &World, cfg: &Cfg, slot: usize) -> Outcome {
                 }
                 _ => push("request-wrong:body-not-a-json-object", format!("{} body bytes", r.body.len())),
             }
+            // "POSTs one JSON body": on the wire a JSON body is identified by its media type.
+            // (Not demanded when the user passes a Content-Type of their own.)
+            let user_ct = headers.iter().any(|h| plan::header_expected(h).0.eq_ignore_ascii_case("content-type"));
+            if !user_ct {
+                let cts: Vec<String> = r.headers.iter().filter(|(n, _)| n.eq_ignore_ascii_case("content-type")).map(|(_, v)| String::from_utf8_lossy(v).to_ascii_lowercase()).collect();
+                let ok = cts.len() == 1 && cts[0].split(';').next().map(|m| m.trim() == "application/json").unwrap_or(false);
+                if !ok {
+                    push("request-wrong:content-type", format!("request Content-Type header(s): {:?}", cts));
+                }
+            }
             // headers with multiplicity
             let mut want: BTreeMap<(String, Vec<u8>), usize> = BTreeMap::new();
             for h in &headers {
@@ -368,7 +389,10 @@ fn execute(plan: &Value, w: &World, cfg: &Cfg, slot: usize) -> Outcome {
                 push("request-wrong:unexpected-authorization", "an Authorization header was sent without --authorization".into());
             }
         }
-        let success_expected = plan::success_expected(&built.meaning);
+        let success_expected = plan::success_expected(&built.meaning) && !sink_full;
+        if sink_full && plan::success_expected(&built.meaning) && exit_ok {
+            push("write-failure-not-reported", "the output target accepts no bytes (/dev/full) but the exit status is 0: the JSON cannot have been written".into());
+        }
         let fault_free = matches!(&built.meaning, Meaning::Complete { .. });
         if fault_free && (seen.connections != 1 || full_requests.len() != 1) && !timed_out {
             push("not-exactly-one-request", format!("{} connection(s), {} complete request(s) in a run without transport faults", seen.connections, full_requests.len()));
@@ -391,7 +415,7 @@ fn execute(plan: &Value, w: &World, cfg: &Cfg, slot: usize) -> Outcome {
                 }
             }
         } else {
-            if exit_ok {
+            if exit_ok && !(sink_full && plan::success_expected(&built.meaning)) {
                 push("failure-expected-but-succeeded", format!("reply means {:?} but exit status is 0", short_meaning(&built.meaning)));
             }
             if let Some(p) = &pre {
@@ -404,7 +428,7 @@ fn execute(plan: &Value, w: &World, cfg: &Cfg, slot: usize) -> Outcome {
     // ---- last clause: the written file generates the same code as the served SDL
     let mut codegen_checked = false;
     let served = served_cache.lock().unwrap().take();
-    if v.is_empty() && !refused && exit_ok && plan::success_expected(&built.meaning) && plan["script"]["body"]["kind"] == "schema" {
+    if v.is_empty() && !refused && !sink_full && exit_ok && plan::success_expected(&built.meaning) && plan["script"]["body"]["kind"] == "schema" {
         if let Some(s) = served {
             let one_of_ok = !s.has_one_of || plan["is_one_of"].as_bool().unwrap_or(false);
             if s.arguable.is_empty() && one_of_ok {
@@ -453,7 +477,7 @@ fn execute(plan: &Value, w: &World, cfg: &Cfg, slot: usize) -> Outcome {
         obs,
         class: built.class,
         bucket: built.cut_bucket,
-        meaning_success: plan::success_expected(&built.meaning),
+        meaning_success: plan::success_expected(&built.meaning) && !sink_full,
         refused,
         contacted: seen.connections > 0,
         codegen_checked,
@@ -515,7 +539,7 @@ fn minimise(p: &Value, class: &str, w: &World, cfg: &Cfg, slot: usize, budget: u
             i += 1;
         }
     }
-    for (k, val) in [("authorization", Value::Null), ("no_ssl", json!(false)), ("is_one_of", json!(false)), ("specify_by_url", json!(false)), ("url_first", json!(true)), ("header_eq", json!(true)), ("path", json!("/graphql")), ("env", json!("clean")), ("output_form", json!("abs"))] {
+    for (k, val) in [("authorization", Value::Null), ("no_ssl", json!(false)), ("is_one_of", json!(false)), ("specify_by_url", json!(false)), ("url_first", json!(true)), ("header_eq", json!(true)), ("path", json!("/graphql")), ("env", json!("clean")), ("output_form", json!("abs")), ("sink", json!("normal"))] {
         let mut c = best.clone();
         c[k] = val;
         try_plan(c, &mut best, &mut attempts);
@@ -602,7 +626,9 @@ fn absorb(a: &mut Agg, sub: u64, p: &Value, o: &Outcome) {
     } else {
         a.failure_runs += 1;
         let fam = o.class.split('/').next().unwrap_or("").to_string();
-        let kind = if o.class.contains("close-early") || o.class.contains("no-reply") || o.class.contains("refused-connection") {
+        let kind = if p["sink"] == "dev-full" && !o.class.contains("close-early") && !o.class.contains("no-reply") && o.class.starts_with("2xx") && o.class.ends_with("intact") {
+            "output-target-full(/dev/full)".to_string()
+        } else if o.class.contains("close-early") || o.class.contains("no-reply") || o.class.contains("refused-connection") {
             o.class.clone()
         } else if o.class.starts_with("stall") {
             "endpoint-stalls-until-client-timeout".to_string()
